@@ -350,12 +350,21 @@ Definition observe (c : cfg) (s : st) : list N :=
   concat (map (fun x => (if attached x then 1%N else 0%N) :: enc_list (if attached x then delivered c x else [])) (g_subs s)).
 
 Record case := {
-  c_kind : N; c_porder : porder; c_n : nat; c_subs : nat; c_sched : list actor; c_expect : list N }.
+  c_kind : N; c_porder : porder; c_n : nat; c_subs : nat; c_sched : list actor; c_expect : list N;
+  (* 0: the channel of the real size (16 384 frames; the runs are far shorter: the unbounded model is exact, see below);
+     cap > 0: the case ran with event channels of cap frames (hook ripd::verif::set_event_channel_capacity), so
+     receivers DO lag: compared with the refill model rfinal LagRefill cap *)
+  c_lagcap : nat }.
 
 Definition case_cfg (c : case) : cfg :=
   {| c_p := c_porder c; c_s := SubThenSnap; c_f := FilterGtLast; c_cap := None |}.
+Definition robserve (pol : lagpolicy) (s : rst) : list N :=
+  concat (map (fun x => (if rattached x then 1%N else 0%N) :: enc_list (if rattached x then rdelivered pol s x else [])) (r_subs s)).
 (* capacity: the real channels hold 16 384 frames; a stream of n <= capacity frames can never lag
    (c06_lag_bound), and the correspondence runs have n <= 60, so the unbounded channel is exact here *)
 Definition model_obs (c : case) : list N :=
-  let g := case_cfg c in observe g (run g (c_sched c) (init g (c_n c) (c_subs c))).
+  match c_lagcap c with
+  | 0 => let g := case_cfg c in observe g (run g (c_sched c) (init g (c_n c) (c_subs c)))
+  | cap => robserve LagRefill (rfinal LagRefill cap (c_n c) (c_subs c) (c_sched c))
+  end.
 Definition check_case (c : case) : bool := lN_eqb (model_obs c) (c_expect c).
